@@ -28,7 +28,7 @@ package fscache
 //@   ensures result1 == nil ==> authentic(bytesOf(data)) && bytesOf(result0) == plainOf(bytesOf(data))
 
 //@ func (*fsCache).get
-//@   property C14 C17
+//@   property C14 C17 C15
 //@   requires c != nil && c.root != nil && c.fn != nil
 //@   assigns now
 //@   ensures !fsHas[fileNameFor(key)] ==> result1 != nil && notExist(result1)                                  # name: absent-is-not-exist
